@@ -23,6 +23,7 @@ type Clause struct {
 type Param struct{ Name, Type string }
 
 type AtItem struct {
+	Pointwise bool // ghostset pointwise x[v] := e : for every key v
 	Anchor string // e.g. "call 2 SavePacket", "loop 1 head", "entry", "exit"
 	What   string // "use" | "assert" | "assume-ghost" | "ghost"
 	Label  string
@@ -59,6 +60,7 @@ type FuncContract struct {
 	Used     bool
 	Assumes  []Clause // postconditions assumed at call sites but NOT checked against the body (listed as assumptions)
 	ForwardFrames bool // "hint forward-frames": frame axioms of array updates also trigger on reads of the old array
+	GhostResets  []string // ghostreset a, b: ghost variables set to their zero value when the function is entered (it must list them in modifies)
 	GhostLocals  []Param // ghostlocal name type: function-private ghost variables (zero at entry), updated by `at call ... ghost`
 	GhostResults []Param // ghost results (name, ghost type): extra, specification-only results of the function
 	GhostDefs    []AtItem // ghostdef name[q] := expr : definition of a ghost result at exit
@@ -147,7 +149,7 @@ type MonitorInv struct {
 	E     Expr
 }
 
-var clauseKw = map[string]bool{"ghostlocal": true, "ghostresult": true, "ghostdef": true, "assumes": true, "hint": true, "ghostset": true, "preserves": true, "calls": true, "requires": true, "ensures": true, "modifies": true, "assigns": true,
+var clauseKw = map[string]bool{"ghostreset": true, "ghostlocal": true, "ghostresult": true, "ghostdef": true, "assumes": true, "hint": true, "ghostset": true, "preserves": true, "calls": true, "requires": true, "ensures": true, "modifies": true, "assigns": true,
 	"decreases": true, "wrapping": true, "loop": true, "at": true, "pure": true, "opaque": true,
 	"use": true, "by": true}
 var itemKw = map[string]bool{"spec": true, "lemma": true, "func": true, "interface": true, "trusted": true,
@@ -536,6 +538,13 @@ func parseContractFile(path, pkgPath string, requirePrefix bool) (*ContractFile,
 			} else {
 				return nil, fail("clause outside item")
 			}
+		case "ghostreset":
+			if curF == nil {
+				return nil, fail("ghostreset outside func")
+			}
+			for _, n := range splitTop(rest, ',') {
+				curF.GhostResets = append(curF.GhostResets, strings.TrimSpace(n))
+			}
 		case "ghostlocal":
 			if curF == nil {
 				return nil, fail("ghostlocal outside func")
@@ -596,6 +605,11 @@ func parseContractFile(path, pkgPath string, requirePrefix bool) (*ContractFile,
 			if curF == nil {
 				return nil, fail("ghostset outside func")
 			}
+			pointwise := false
+			if strings.HasPrefix(rest, "pointwise ") {
+				pointwise = true
+				rest = strings.TrimSpace(rest[len("pointwise "):])
+			}
 			eq := strings.Index(rest, ":=")
 			if eq < 0 {
 				return nil, fail("ghostset needs :=")
@@ -608,7 +622,7 @@ func parseContractFile(path, pkgPath string, requirePrefix bool) (*ContractFile,
 			if err != nil {
 				return nil, fail("%v", err)
 			}
-			curF.GhostSets = append(curF.GhostSets, AtItem{What: "ghostset", Target: te, E: ve, Text: rest})
+			curF.GhostSets = append(curF.GhostSets, AtItem{What: "ghostset", Target: te, E: ve, Text: rest, Pointwise: pointwise})
 		case "preserves":
 			if curF == nil {
 				return nil, fail("preserves outside func")
@@ -729,7 +743,7 @@ func parseContractFile(path, pkgPath string, requirePrefix bool) (*ContractFile,
 			// at <anchor words> (use|assert|assume) ...
 			idx := -1
 			what := ""
-			for _, kw := range []string{" use ", " assert ", " ghost ", " bind "} {
+			for _, kw := range []string{" use ", " assert ", " ghost ", " bind ", " hint "} {
 				if k := strings.Index(rest, kw); k >= 0 && (idx < 0 || k < idx) {
 					idx = k
 					what = strings.TrimSpace(kw)
